@@ -297,6 +297,36 @@ func historyDigestsWith(im *Impl, h *History) []string {
 	return out
 }
 
+// historyDigestsRestarted is a replica that stops after op `at` (a commit), is started again from the state
+// file it wrote there and goes on; an `init` later in the history ends the comparison.
+func historyDigestsRestarted(u *Universe, h *History, at int, path string) ([]string, error) {
+	im := NewImpl(u)
+	im.Gobpath = path
+	old := app.PersistMinDuration
+	app.PersistMinDuration = -1
+	out := []string{}
+	digest := func(r RawResp) {
+		sum := sha256.Sum256(append(append([]byte(r.Obs), 0), r.Bytes...))
+		out = append(out, hex.EncodeToString(sum[:8]))
+	}
+	for _, op := range h.Ops[:at+1] {
+		digest(im.Do(op))
+	}
+	app.PersistMinDuration = old
+	loaded, err := app.LoadShutterAppFromFile(path)
+	if err != nil {
+		return nil, err
+	}
+	re := &Impl{App: &loaded, U: u}
+	for _, op := range h.Ops[at+1:] {
+		if op.Kind == "init" {
+			break
+		}
+		digest(re.Do(op))
+	}
+	return out, nil
+}
+
 // ReplicaMain is the second replica: a separate OS process fed the same histories on stdin.
 func ReplicaMain() {
 	sc := bufio.NewScanner(os.Stdin)
@@ -383,6 +413,47 @@ func monitorC09(cfg CheckConfig, res *hx.Result, traces []*Trace) error {
 			res.Count("c09:persisting-replica-comparisons")
 			if !cmp("replica persisting at every commit vs never persisting", got) {
 				return nil
+			}
+		}
+		// a replica that was stopped and started again from its state file in between
+		{
+			commits := []int{}
+			for k, op := range t.H.Ops {
+				if op.Kind == "commit" {
+					commits = append(commits, k)
+				}
+			}
+			pick := hx.NewRand(cfg.Seed ^ uint64(i)*0x9E37 ^ 0xC09)
+			points := 3
+			if cfg.Tier == "thorough" {
+				points = 40
+			}
+			for n := 0; n < points && len(commits) > 0; n++ {
+				at := commits[pick.Intn(len(commits))]
+				dir, err := os.MkdirTemp("", "verif-c09-restart-")
+				if err != nil {
+					return err
+				}
+				got, err := historyDigestsRestarted(NewUniverse(t.H.N), t.H, at, dir+"/state.gob")
+				os.RemoveAll(dir)
+				if err != nil {
+					return fmt.Errorf("restarted replica: %v", err)
+				}
+				res.Count("c09:restarted-replica-comparisons")
+				stop := false
+				for k := range got {
+					if got[k] != base[k] {
+						ops := append(append([]*Op{}, t.H.Ops[:at+1]...), &Op{Kind: "state"})
+						ops = append(ops, t.H.Ops[at+1:k+1]...)
+						what := fmt.Sprintf("replicas diverge (replica restarted from its state file after op %d vs replica that kept running) at op %d: %s", at, k, t.H.Ops[k].Line(t.U))
+						specViolation(cfg, res, "replica-divergence", what, t.U, ops)
+						stop = true
+						break
+					}
+				}
+				if stop {
+					return nil
+				}
 			}
 		}
 		for r := 0; r < repeats; r++ {
